@@ -11,11 +11,12 @@ def run(rep, tier, only=None):
     T = 20 if tier == 'quick' else 120
     rep.functions += ['Cython/Shadow.py: cdiv, cmod, cast, typedef.__call__, declare']
     rep.bounds += ['cdiv/cmod: all pairs of unbounded Python ints with b != 0 (CrossHair: confirmed over all paths, z3 Int)',
-                   'cast: unbounded int, 8 integer typedefs enumerated by a symbolic selector']
+                   'cast: unbounded int, 8 integer typedefs enumerated by a symbolic selector',
+                   'cdiv additionally on dividends 2^53 / 2^63 / 2^64 / 2^100 + (0..1023), divisors 1..7 (a search that does not depend on unbounded float reasoning)']
     rep.assume('reference = C99 6.5.5 truncating division written over Python ints (h_c38.ref_cdiv/ref_cmod)',
                'CrossHair 0.0.110 int model (z3 Int) is faithful')
     runner.run_twin(rep, H, 'twin_cdiv', 20)
-    runner.run_conditions(rep, H, [Cond('check_cdiv', T), Cond('check_cmod', T), Cond('check_divmod_identity', T),
+    runner.run_conditions(rep, H, [Cond('check_cdiv', T), Cond('check_cdiv_wide', T), Cond('check_cmod', T), Cond('check_divmod_identity', T),
                                    Cond('check_cast_int_identity', T), Cond('check_cast_bint', T),
                                    Cond('check_declare_int', T)])
     rep.sample(dict(condition='check_cdiv', over='a:int, b:int, b != 0', oracle='ref_cdiv'))
